@@ -292,6 +292,19 @@ let parse_dirs (t : string) : (ascii list * sch option) list =
         | None -> failwith "dir") (split_on ';' t)
 
 let opdecls : (string, opdecl) Hashtbl.t = Hashtbl.create 256
+(* declaration order of the path parameters (the field order of the generated Path struct), per operation *)
+let path_orders : (string, ascii list list) Hashtbl.t = Hashtbl.create 256
+
+(* the template-order path fields of [od] paired with their variable names *)
+let path_vars (od : opdecl) : (ascii list * sch) list =
+  List.filter_map (fun (n, o) -> match o with Some sc -> Some (n, sc) | None -> None) od.od_path
+
+(* reorder template-order items into declaration order (and back) *)
+let decl_order (key : string) (od : opdecl) : ascii list list =
+  let vars = List.map fst (path_vars od) in
+  match Hashtbl.find_opt path_orders key with
+  | Some po when List.sort compare po = List.sort compare vars -> po
+  | _ -> vars
 
 let p_line args =
   match args with
@@ -300,6 +313,9 @@ let p_line args =
     Hashtbl.replace opdecls (pkg ^ " " ^ key)
       { od_query = parse_decls (List.assoc "q" kv); od_header = parse_decls (List.assoc "h" kv);
         od_path = parse_dirs (List.assoc "p" kv) };
+    (match List.assoc_opt "po" kv with
+     | Some po when po <> "-" -> Hashtbl.replace path_orders (pkg ^ " " ^ key) (parse_hexlist po)
+     | _ -> Hashtbl.remove path_orders (pkg ^ " " ^ key));
     "SKIP opdecl"
   | _ -> fail_line "P args"
 
@@ -317,11 +333,14 @@ let dump_field (f : field) = match f with
   | FMaybe None -> "N"
   | FMaybe (Some v) -> "J(" ^ dump_pval v ^ ")"
 
-let dump_parsed (od : opdecl) (p : parsed) : string =
+let dump_parsed ?(key = "") (od : opdecl) (p : parsed) : string =
   let sec l = "{" ^ String.concat "," (List.map dump_field l) ^ "}" in
+  let pp_decl =
+    let named = List.combine (List.map fst (path_vars od)) p.pp in
+    List.map (fun n -> List.assoc n named) (decl_order key od) in
   let parts =
     (if od.od_query <> [] then [sec p.pq] else [])
-    @ (if List.exists (fun (_, o) -> o <> None) od.od_path then [sec p.pp] else [])
+    @ (if List.exists (fun (_, o) -> o <> None) od.od_path then [sec pp_decl] else [])
     @ (if od.od_header <> [] then [sec p.ph] else []) in
   "{" ^ String.concat "," parts ^ "}"
 
@@ -335,7 +354,7 @@ let model_parse pkg (s : rspec) (o : outcome) (rq : request) : string =
      | None -> "-"
      | Some od ->
        (match parse_request parse_float_oracle parse_time_oracle (gen_base s) od rq with
-        | Ok p -> dump_parsed od p
+        | Ok p -> dump_parsed ~key:(pkg ^ " " ^ string_of_str m ^ ":" ^ hex_of_str raw) od p
         | Err n -> "Err(" ^ hex_of_str n ^ ")"
         | ErrOther -> "ErrOther"))
 
@@ -776,14 +795,22 @@ let parse_fields (ds : (sch * bool) list) (t : string) (i : int ref) : field lis
       ignore (eat ","); f) ds in
   ignore (eat "}"); fs
 
-let parse_parsed (od : opdecl) (t : string) : parsed =
+let parse_parsed ?(key = "") (od : opdecl) (t : string) : parsed =
   let i = ref 0 in
   let n = String.length t in
   let eat p = if !i + String.length p <= n && String.sub t !i (String.length p) = p then (i := !i + String.length p; true) else false in
   ignore (eat "{");
   let q = if od.od_query <> [] then (let r = parse_fields (List.map (fun d -> (d.d_sch, d.d_required)) od.od_query) t i in ignore (eat ","); r) else [] in
-  let vars = List.filter_map (fun (_, o) -> match o with Some sc -> Some (sc, true) | None -> None) od.od_path in
-  let p = if vars <> [] then (let r = parse_fields vars t i in ignore (eat ","); r) else [] in
+  (* the Path struct is in declaration order; the model's pp is in template order *)
+  let tvars = path_vars od in
+  let order = decl_order key od in
+  let p =
+    if tvars = [] then [] else begin
+      let r = parse_fields (List.map (fun n -> (List.assoc n tvars, true)) order) t i in
+      ignore (eat ",");
+      let named = List.combine order r in
+      List.map (fun (n, _) -> List.assoc n named) tvars
+    end in
   let h = if od.od_header <> [] then (let r = parse_fields (List.map (fun d -> (d.d_sch, d.d_required)) od.od_header) t i in ignore (eat ","); r) else [] in
   { pq = q; ph = h; pp = p }
 
@@ -792,7 +819,7 @@ let k_line args =
     let s = (try Hashtbl.find specs pkg with Not_found -> failwith ("no spec " ^ pkg)) in
     let od = (try Hashtbl.find opdecls (pkg ^ " " ^ key) with Not_found -> failwith ("no opdecl " ^ key)) in
     let m = String.sub key 0 (String.index key ':') in
-    match (try Some (parse_parsed od v) with Exit -> None) with
+    match (try Some (parse_parsed ~key:(pkg ^ " " ^ key) od v) with Exit -> None) with
     | None -> "model=Unexpressible(null-parameter) spec=" ^ v
     | Some sent ->
     (* the body: json.Marshal on the client, json.Decode on the server (Model/Json.v enc, dec); a non-JSON body is passed through *)
@@ -816,7 +843,7 @@ let k_line args =
      | None -> "model=Unexpressible spec=" ^ v
      | Some rq ->
        let got = (match parse_request parse_float_oracle parse_time_oracle (gen_base s) od rq with
-           | Ok p -> with_body (dump_parsed od p)
+           | Ok p -> with_body (dump_parsed ~key:(pkg ^ " " ^ key) od p)
            | Err n -> "Err(" ^ hex_of_str n ^ ")"
            | ErrOther -> "ErrOther") in
        let sentv = (match body with None -> v | Some (_, bv) ->
@@ -959,7 +986,7 @@ let dispatch line =
   | "V" :: args -> v_line args
   | "X" :: args -> x_line args
   | ["N"; "pfn"; h] -> "model=" ^ hex_of_str (public_field_name (str_of_hex h))
-  | "F" :: _ | "RV" :: _ -> "SKIP not-modelled-line"
+  | "F" :: _ | "RV" :: _ | "EO" :: _ | "JO" :: _ -> "SKIP not-modelled-line"
   | "Y" :: args -> y_line args
   | "I" :: args -> i_line args
   | "R" :: args -> r_line args
